@@ -288,7 +288,7 @@ def run_family(fam: Family, cases: list[Any], use_model: bool = True) -> FamResu
         for i, c in enumerate(cases):
             if obs[i] is None:
                 continue
-            l = fam.model(c)
+            l = fam.model_obs(c, obs[i]) if getattr(fam, "model_from_obs", False) else fam.model(c)
             if l is not None:
                 idx.append(i)
                 lines.append(l)
@@ -298,7 +298,7 @@ def run_family(fam: Family, cases: list[Any], use_model: bool = True) -> FamResu
             for i, out in zip(idx, outs):
                 exp = fam.expect(cases[i], out)
                 if not fam.same(exp, obs[i]):
-                    res.disagreements.append({"family": fam.name, "case": cases[i], "model": exp, "impl": obs[i], "driver_line": fam.model(cases[i])[:400]})
+                    res.disagreements.append({"family": fam.name, "case": cases[i], "model": exp, "impl": obs[i], "driver_line": lines[idx.index(i)][:400]})
     return res
 
 
